@@ -55,6 +55,33 @@ def run(ctx):
                           dict(root_dirs=sorted(dirs), cmd="bash -O lastpipe -c '. util.sh; build_id ROOT'", today=today))
         if len(present) >= 2:
             distinct.add(("b",) + tuple(present))
+    # ---- midnight passes while build_id runs: every reading of the date after the first one already shows
+    # the next day (date shim); the name must still be new, and be one of the two days
+    seqf = os.path.join(ctx.scratch, "c17dates")
+    for t in range(ctx.n(6, 120)):
+        shutil.rmtree(base, ignore_errors=True)
+        root = os.path.join(base, "root")
+        os.makedirs(root)
+        d0 = datetime.date(2024, rng.randint(1, 12), rng.randint(1, 28))
+        d1 = d0 + datetime.timedelta(days=1)
+        day0, day1 = d0.strftime("%Y-%m-%d"), d1.strftime("%Y-%m-%d")
+        names = ["%s.%d" % (day0, i) for i in sorted(rng.sample(range(1, 14), rng.randint(1, 6)))]
+        if t % 3 == 0 and day0 + ".1" not in names:
+            names.append(day0 + ".1")
+        names += ["%s.%d" % (day1, i) for i in sorted(rng.sample(range(1, 5), rng.choice([0, 0, 1, 2])))]
+        for nm in names:
+            os.makedirs(os.path.join(root, nm, "tmp"))
+        open(seqf, "w").write(day0 + "\n" + day1 + "\n")
+        rc, out, err = sh.call('build_id "%s"' % root, extra=dict(VERIF_DATE_SEQ=seqf))
+        got = out.decode().strip()
+        kinds["build_id-at-midnight"] = kinds.get("build_id-at-midnight", 0) + 1
+        if rc != 0 or not (got.startswith(day0 + ".") or got.startswith(day1 + ".")) or os.path.exists(os.path.join(root, got)):
+            ctx.violation("build_id returned '%s' which %s (the date changed from %s to %s while it ran)" % (
+                got, "already exists" if os.path.exists(os.path.join(root, got)) else "is not a name of either day", day0, day1),
+                dict(root_dirs=sorted(names), cmd="bash -O lastpipe -c '. util.sh; build_id ROOT' with a date(1) that answers %s once and %s from then on" % (day0, day1)))
+        # the unchanged build_id reads the date once: the model with the first day
+        reqs.append("buildid %s %s" % (hexb(day0.encode()), ",".join(hexb(n.encode()) for n in names) or "."))
+        obs.append(hexb(got.encode()))
     # ---- log_id over sequences of attempts
     for t in range(ctx.n(80, 2000)):
         shutil.rmtree(base, ignore_errors=True)
